@@ -1,9 +1,10 @@
 /-
 Translated Python (`BtcHd.Code`, generated from /repo by harness/translate.py) = hand-written model:
 `bech32.py` `bech32_polymod`, `bech32_hrp_expand`, `bech32_verify_checksum`, `bech32_create_checksum`,
-`convertbits`.
+`convertbits`, `bech32_encode`, `bech32_decode`, and the segwit-address `decode` / `encode` — all of `bech32.py`.
 -/
 import BtcHd.Lemmas.Translated
+import BtcHd.Lemmas.Translated3
 
 namespace BtcHd.Translated
 open BtcHd
@@ -63,6 +64,100 @@ theorem convertbits_eq (data : List Nat) (frombits tobits : Nat) (pad : Bool) (h
     rw [emit_fuel h _ _ _ (s.2.1 + frombits + 1), emit_eq_whileFuel]
     · exact Nat.lt_succ_self _
     · exact Nat.lt_succ_of_le (Nat.div_le_self _ _)
+
+section codec
+open BtcHd.Bech32
+
+/-- The translated `bech32_decode` is the model's `bech32Decode`, on every string: character range, mixed-case
+rule (`lower()`/`upper()` comparison = an upper-case and a lower-case letter both occur), last `'1'`, the three
+length rules, charset membership, checksum. -/
+theorem bech32_decode_eq (bech : List Char) : Code.bech32_decode bech = Bech32.bech32Decode bech := by
+  unfold Code.bech32_decode Bech32.bech32Decode
+  simp only [verifyChecksum_eq, Option.bind_eq_bind, Option.bind_none, if_false, rfind_eq,
+    mixed_case_iff]
+  have hl : List.map Py.lowerAscii bech = List.map toLowerAscii bech := by
+    congr 1; funext c; exact lowerAscii_eq c
+  rw [hl]
+  have hany : (bech.any fun x => decide (x.toNat < 33 ∨ x.toNat > 126)) =
+      (bech.any fun x => decide (x.toNat < 33) || decide (x.toNat > 126)) := by
+    congr 1; funext x; simp
+  rw [hany]
+  by_cases h1 : (bech.any fun x => decide (x.toNat < 33) || decide (x.toNat > 126)) = true
+  · simp [h1]
+  · by_cases h2 : (bech.any isUpperAscii && bech.any isLowerAscii) = true
+    · simp [h1, h2]
+    · simp only [h1, h2, or_self, if_false]
+      cases hr : rfindOne (List.map toLowerAscii bech) with
+      | none => simp
+      | some pos =>
+        simp only []
+        have e1 : ((pos : Int) < 1) ↔ pos < 1 := by omega
+        have e2 : ((pos : Int) + 7 > ((List.map toLowerAscii bech).length : Int)) ↔
+            pos + 7 > (List.map toLowerAscii bech).length := by omega
+        have e3 : ((pos : Int) + 1).toNat = pos + 1 := by omega
+        have e4 : (pos : Int).toNat = pos := by omega
+        simp only [e1, e2, e3, e4]
+        have hc : Generated.charset = charset := rfl
+        rw [hc]
+        split
+        · rfl
+        · split
+          · rfl
+          · cases verifyChecksum _ _ <;> rfl
+
+/-- The translated segwit `decode` is the model's `decode` (`(None, None)` = `none`). -/
+theorem decode_eq (hrp addr : List Char) : Code.decode hrp addr = Bech32.decode hrp addr := by
+  unfold Code.decode Bech32.decode
+  simp only [bech32_decode_eq, convertbits_eq _ _ _ _ (by decide : 0 < 8)]
+  cases Bech32.bech32Decode addr with
+  | none => rfl
+  | some r =>
+    obtain ⟨hrpgot, data, spec⟩ := r
+    simp only [Option.bind_eq_bind, Option.bind_some, Option.bind_none, false_or]
+    by_cases hh : hrpgot ≠ hrp
+    · simp [hh]
+    · simp only [hh, if_false]
+      cases data with
+      | nil =>
+        have : convertbits (List.drop 1 ([] : List Nat)) 5 8 false = some [] := by decide
+        rw [this]; simp
+      | cons v tail =>
+        cases convertbits (List.drop 1 (v :: tail)) 5 8 false with
+        | none => rfl
+        | some decoded =>
+          simp only [Option.bind_some, List.getElem!_cons_zero]
+          rfl
+
+/-- The translated `bech32_encode` is the model's `bech32Encode` (`CHARSET[d]` out of range = IndexError = `none`). -/
+theorem bech32_encode_eq (h : List Char) (d : List Nat) (s : Bech32.Encoding) :
+    Code.bech32_encode h d s = Bech32.bech32Encode h d s := by
+  unfold Code.bech32_encode Bech32.bech32Encode
+  simp only [Translated.createChecksum_eq]
+  have : (fun d => Generated.charset[d]?) = Bech32.charAt := rfl
+  rw [this]
+  cases List.mapM Bech32.charAt (d ++ Bech32.createChecksum h d s) <;> rfl
+
+/-- The translated segwit `encode` is the model's `encode`, for every prefix, version and program. -/
+theorem encode_eq (hrp : List Char) (witver : Nat) (witprog : Bytes) :
+    Code.encode hrp witver witprog = Bech32.encode hrp witver witprog := by
+  unfold Code.encode Bech32.encode
+  simp only [bech32_encode_eq, decode_eq, convertbits_eq _ _ _ _ (by decide : 0 < 5)]
+  have hm : List.map UInt8.toNat witprog = List.map (fun x => x.toNat) witprog := rfl
+  rw [hm]
+  cases convertbits (List.map (fun x => x.toNat) witprog) 8 5 true with
+  | none => rfl
+  | some conv =>
+    simp only [Option.bind_eq_bind, Option.bind_some, List.singleton_append]
+    cases bech32Encode hrp (witver :: conv) (if witver = 0 then Encoding.bech32 else Encoding.bech32m) with
+    | none => rfl
+    | some ret =>
+      simp only [Option.bind_some]
+      cases hd : Bech32.decode hrp ret <;> simp [hd]
+
+end codec
+
+example : Code.encode ['b', 'c'] 0 (List.replicate 20 0) = Bech32.encode ['b', 'c'] 0 (List.replicate 20 0) :=
+  encode_eq _ _ _
 
 /-- a concrete instance of `convertbits_eq` (the hypothesis is satisfiable) -/
 example : Code.convertbits [255, 1] 8 5 true = Bech32.convertbits [255, 1] 8 5 true :=
